@@ -7,10 +7,10 @@ use std::path::PathBuf;
 pub fn gen_text(rng: &mut Rng, allow_taint: bool, malformed: bool) -> (String, bool) {
     let words = ["a", "module", "x1", "_y", "$display", "42", "8'hff", "1.5e3", "é", "日本", "w"];
     let punct = [";", ",", "(", ")", "[", "]", "{", "}", "=", "+", "-", "*", "/", "#", "@", ".", ":", "?", "<=", "'", "~", "|", "&", "%", "!"];
-    let ws = [" ", "  ", "\t", "\n", "\r\n", "\n\n", " \n ", "\x0c"];
+    let ws = [" ", "  ", "\t", "\n", "\r\n", "\n\n", " \n ", "\x0c", "\r", " \r "];
     let strs = ["\"s\"", "\"a b\"", "\"`A `define\"", "\"x\\\"y\"", "\"q\\\\\"", "\"// no\"", "\"/* no */\"", "\"é\"", "\"\"", "\"a\\\nb\""];
     let escs = ["\\esc", "\\a+b", "\\`A", "\\x\"y", "\\é"];
-    let cmts = ["// c\n", "// `define X 1\n", "//\n", "/* c */", "/**/", "/* a\n `ifdef b */", "/* é */", "// \"open\n", "/* \" */"];
+    let cmts = ["// c\n", "// `define X 1\n", "//\n", "/* c */", "/**/", "/* a\n `ifdef b */", "/* é */", "// \"open\n", "/* \" */", "// c\r\n", "// a\rb\n", "// é \r\r\n", "/* a\r b */"];
     let mut s = String::new(); let mut tainted = false;
     let n = rng.range(1, 14);
     let mut last_strlike = false;
